@@ -103,7 +103,7 @@ func (x *fsx) shapeOf(s *an.PathState, t *an.Term, depth int) shape {
 	if t == nil {
 		return shape{Kind: "other", Why: "nil"}
 	}
-	if depth > 6 {
+	if depth > 12 {
 		return shape{Kind: "other", Why: "depth"}
 	}
 	switch t.Op {
@@ -176,6 +176,9 @@ func (x *fsx) shapeOf(s *an.PathState, t *an.Term, depth int) shape {
 			return shape{Kind: "userstem", User: b}
 		}
 		if callee := staticCallee(c); callee != nil && x.p.InRepo(callee) {
+			if r, ok := s.Resolved[c.K]; ok && idx < 0 {
+				return x.shapeOf(s, r, depth+1)
+			}
 			if idx < 0 {
 				idx = 0
 			}
@@ -501,7 +504,7 @@ func kindsOnly(shs []shape) []string {
 func storeFns(p *an.Prog) []*ssa.Function {
 	var out []*ssa.Function
 	for _, f := range p.RepoFns {
-		if an.FnPkgPath(f) == storePkg {
+		if an.FnPkgPath(f) == storePkg && !an.Inlinable(f) {
 			out = append(out, f)
 		}
 	}
@@ -511,7 +514,7 @@ func storeFns(p *an.Prog) []*ssa.Function {
 func pkgFns(p *an.Prog, pkg string) []*ssa.Function {
 	var out []*ssa.Function
 	for _, f := range p.RepoFns {
-		if an.FnPkgPath(f) == pkg {
+		if an.FnPkgPath(f) == pkg && !an.Inlinable(f) {
 			out = append(out, f)
 		}
 	}
